@@ -29,6 +29,7 @@ const (
 	opUnsubscribeForeign // a pointer that was never subscribed
 	opSubscribeNil       // Subscribe(Subscription{}) : no OnNext
 	opMute               // set OnNext = nil through the pointer returned by Subscribe
+	opUnmute             // give a subscription without OnNext (subscribed empty, or muted) its callback through the returned pointer
 )
 
 const (
@@ -61,7 +62,7 @@ func (h history) String() string {
 		if i > 0 {
 			sb.WriteByte(' ')
 		}
-		sb.WriteString([]string{"Sub", "Unsub", "Pub", "Map", "UnsubForeign", "SubNil", "Mute"}[s.Op])
+		sb.WriteString([]string{"Sub", "Unsub", "Pub", "Map", "UnsubForeign", "SubNil", "Mute", "Unmute"}[s.Op])
 		fmt.Fprintf(&sb, "(%d)", s.Arg)
 	}
 	sb.WriteString(" scripts=")
@@ -383,6 +384,20 @@ func (r *histRunner) runSteps() {
 				st.ptr.OnNext = nil
 				st.muted = true
 			}
+		case opUnmute:
+			// the two-step way of building a subscriber (s := p.Subscribe(Subscription{}); s.OnNext = ...):
+			// the subscription has been registered since its Subscribe call and keeps its place in the order
+			var muted []*subState
+			for _, st := range r.subs {
+				if st.muted {
+					muted = append(muted, st)
+				}
+			}
+			if len(muted) > 0 {
+				st := muted[s.Arg%len(muted)]
+				st.ptr.OnNext = func(v string) { r.onNext(st, v) }
+				st.muted = false
+			}
 		case opUnsubscribeForeign:
 			pn := r.pubs[s.Arg%len(r.pubs)]
 			pn.p.Unsubscribe(&fpgo.Subscription[string]{OnNext: func(string) {}})
@@ -404,7 +419,7 @@ func (r *histRunner) runSteps() {
 func genHistory(t *rapid.T) history {
 	var h history
 	n := rapid.IntRange(1, 30).Draw(t, "steps")
-	ops := []int{opSubscribe, opSubscribe, opSubscribe, opSubscribe, opPublish, opPublish, opPublish, opPublish, opUnsubscribe, opMap, opUnsubscribeForeign, opSubscribeNil, opMute}
+	ops := []int{opSubscribe, opSubscribe, opSubscribe, opSubscribe, opPublish, opPublish, opPublish, opPublish, opUnsubscribe, opMap, opUnsubscribeForeign, opSubscribeNil, opSubscribeNil, opMute, opUnmute, opUnmute}
 	for i := 0; i < n; i++ {
 		h.Steps = append(h.Steps, step{Op: rapid.SampledFrom(ops).Draw(t, "op"), Arg: rapid.IntRange(0, 23).Draw(t, "arg")})
 	}
